@@ -2,7 +2,7 @@
 from engine.runner import mk_case
 
 UN = "Union[int, bool, None]"
-POOL = ["'true'", "'False'", "'TRUE'", "'3'", "'-2'", "'x'", "''", "'1.5'", "' 7 '", "'fAlSe'", "'007'", "'truee'"]
+POOL = ["'true'", "'False'", "'TRUE'", "'3'", "'-2'", "'x'", "''", "'1.5'", "' 7 '", "'fAlSe'", "'007'", "'truee'", "'inf'", "'1e999'", "'3.0'", "'nan'", "'1e3'", "'yes'"]
 CASTS = {"bool": "{str: valida.casting.cast_string_to_bool}", "int": "{str: int}"}
 
 # (id, path term source, doc source with S1/S2 castable positions and u1 symbolic leaf)
@@ -55,7 +55,7 @@ v = sch.validate(doc)
 exp = ref_cast([(PT, {kind!r})], doc)
 ok = same('cast_data', tx(v.cast_data), tx(exp))
 ok = ok and note("caller's document unchanged", tx(doc) == before)
-ok = ok and note('private copy', v.cast_data is not doc)
+ok = ok and note('private copy (no container shared with the input)', v.cast_data is not doc and disjoint_containers(v.cast_data, doc))
 valid, tested, fails = ref_rule(PT, CT, exp)
 ok = ok and same('verdict judged on the cast values', (v.is_valid, v.num_failures, v.num_rules_tested), (valid, len(fails), 1 if tested else 0))
 t = rule.test(doc)
@@ -83,6 +83,39 @@ def cases(ctx):
                         if (a * len(POOL) + b + n) % 6 == ctx.seed % 6 or a == b:
                             out.append(cast_case(sid, pt, doc, kind, s1, s2, L, f"p{a}_{b}"))
                 n += 1
+    # two cast rules over the SAME nodes: the later rule casts nothing itself but must still be judged on the shared copy
+    for n, (s1, s2) in enumerate([("'1'", "'3'"), ("'0'", "'x'"), ("'007'", "'true'")]):
+        body = f"""
+doc = {{'opts': {{'debug': {s1}, 'level': {s2}, 'n': u1}}, 'deep': {{'more': [{s2}, [u1]]}}}}
+before = tx(doc)
+r1 = Rule(('opts', MapValue()), Value.is_instance(int, str, bool) | Value.equal_to(None), cast={{str: int}})
+r2 = Rule(('opts', 'debug'), Value.dtype.in_([bool, int]), cast={{str: valida.casting.cast_string_to_bool}})
+r3 = Rule(('opts', 'level'), Value.greater_than(t), cast={{str: valida.casting.cast_string_to_bool}})
+v = Schema([r1, r2, r3]).validate(doc)
+exp = ref_cast([((('prim', 'opts'), ('map', NULL)), 'int'), ((('prim', 'opts'), ('prim', 'debug')), 'bool'), ((('prim', 'opts'), ('prim', 'level')), 'bool')], doc)
+ok = same('cast_data', tx(v.cast_data), tx(exp))
+e2 = ref_rule((('prim', 'opts'), ('prim', 'debug')), leaf('value', 'dtype', 'in_', [bool, int]), exp)
+e3 = ref_rule((('prim', 'opts'), ('prim', 'level')), V('greater_than', t), exp)
+ok = ok and same('later rules judged on the shared cast copy', [(rt.is_valid, rt.num_failures) for rt in v.rule_tests[1:]], [(e2[0], len(e2[2])), (e3[0], len(e3[2]))])
+ok = ok and note('failure values come from the copy', all(f.value is follow(v.cast_data, f.path) for rt in v.rule_tests for f in rt.failures))
+ok = ok and note("caller's document unchanged", tx(doc) == before) and note('private copy', disjoint_containers(v.cast_data, doc))
+return ok
+"""
+        out.append(mk_case(f"c15.cast.overlapping.{n}", [("u1", UN), ("t", "int")], body, pre=[f"BU({L}, u1, t)"], stubs=["sym_repr"]))
+    # a schema extended with deeper cast rules after it was first used
+    body = """
+doc = {'flag': 'true', 'sub': {'n': '3', 'deep': {'m': '-2', 'k': u1}}}
+before = tx(doc)
+sch = Schema([Rule(('flag',), Value.equal_to(True), cast={str: valida.casting.cast_string_to_bool})])
+v0 = sch.validate(doc)
+ok = same('first validation', tx(v0.cast_data), tx({'flag': True, 'sub': {'n': '3', 'deep': {'m': '-2', 'k': u1}}}))
+sch.add_schema(Schema([Rule(('n',), Value.greater_than(t), cast={str: int}), Rule(('deep', 'm'), Value.less_than(t), cast={str: int})]), DataPath('sub'))
+v1 = sch.validate(doc)
+ok = ok and same('after add_schema', tx(v1.cast_data), tx({'flag': True, 'sub': {'n': 3, 'deep': {'m': -2, 'k': u1}}}))
+ok = ok and note("caller's document unchanged", tx(doc) == before) and note('private copy', disjoint_containers(v1.cast_data, doc))
+return ok
+"""
+    out.append(mk_case("c15.cast.schema_extended", [("u1", UN), ("t", "int")], body, pre=[f"BU({L}, u1, t)"], stubs=["sym_repr"]))
     # two rules, disjoint regions, both casts; shared copy across the schema's rules
     for n, (s1, s2) in enumerate([("'true'", "'3'"), ("'x'", "'-2'"), ("'False'", "'1.5'"), ("'TRUE'", "' 7 '")]):
         body = f"""
